@@ -20,7 +20,9 @@ func init() {
 		Rule: "cases: for each of QuoteSQLString / QuoteSQLBytes / QuoteSQLIdent: every 1- and 2-byte string (65 792), every Unicode scalar value (1 112 064, UTF-8 encoded), " +
 			"and random strings <=40 bytes over quotes, back-quote, backslash, controls, non-printables, multi-byte runes, invalid UTF-8 and keywords. " +
 			"Oracle: the quoted text lexes (memefish.Lexer and the reference lexer) to exactly one token of the right kind whose value is the original string. " +
-			"Non-trivial = the output differs from the bare input by more than the enclosing quotes (needs quoting or escaping); distinct by (function, input).",
+			"Last clause (values survive SQL()): ~110 templates (typed literals, field access on every operand kind, names in expressions, queries, hints, DDL, DML, types) and generator sentences filled with composed values; " +
+			"every identifier / string / bytes value held by the accepted tree must be found, in order and with its kind, among the tokens of SQL() as decoded by the reference lexer. " +
+			"Non-trivial = the output differs from the bare input by more than the enclosing quotes (needs quoting or escaping), or an accepted template instance; distinct by (function, input).",
 		Assumptions: []string{"QuoteSQLIdent is only defined for non-empty names"},
 	})
 }
